@@ -317,6 +317,7 @@ theorem extractSni_encode (s : Loc) (ch : ClientHello) (hwf : ch.WF)
       have := slice_mid' (A ++ sl :: ch.sid ++ [csl / 256, csl % 256] ++ ch.suites ++ cml :: ch.comp)
         [E / 256, E % 256] (encodeExts es ++ []) 2 rfl
       rw [← hS5, e5] at this
+      rw [show 44 + sl + csl + cml = 42 + sl + csl + cml + 2 by omega]
       exact congrArg Except.ok this
     rw [if_neg (by omega), show 41 + sl + csl + 1 + cml + 2 - 2 = 42 + sl + csl + cml by omega,
       show 41 + sl + csl + 1 + cml + 2 = 44 + sl + csl + cml by omega, r5]
@@ -339,6 +340,1102 @@ theorem extractSni_encode (s : Loc) (ch : ClientHello) (hwf : ch.WF)
     simp only [List.length_nil] at this
     unfold findSni
     rw [this]
-    simp only [specResult, hx, specExts]
+    simp only [specResult, specExts]
+    rw [hx]
+    rfl
+
+/-! ## Totality on the builtin locator: every access is inside the data -/
+
+theorem range_builtin_ok (b : Bytes) (i j : Nat) (h1 : i ≤ j) (h2 : j ≤ b.length) :
+    (Loc.builtin b).range i j = .ok (slice b i j) := by simp [Loc.range, h1, h2]
+
+theorem at_builtin_ok (b : Bytes) (i : Nat) (h : i < b.length) :
+    ∃ x, (Loc.builtin b).at i = .ok x := by
+  simp only [Loc.at]; rw [List.getElem?_eq_getElem h]; exact ⟨_, rfl⟩
+
+theorem sniLoop_builtin_err (b : Bytes) (iNext j : Nat) (h : iNext ≤ b.length) (e : Err) :
+    sniLoop (.builtin b) iNext j = .error e → e = .notApplicable := by
+  fun_induction sniLoop (.builtin b) iNext j with
+  | case1 j hj e' hr =>
+    rw [range_builtin_ok b j (j+3) (by omega) (by omega)] at hr
+    cases hr
+  | case2 j hj bb hr typ l ht ih => exact ih
+  | case3 => intro h; cases h; rfl
+  | case4 j hj nm hr typ l ht hl e' hr2 =>
+    rw [range_builtin_ok b _ _ (by omega) (by omega)] at hr2
+    cases hr2
+  | case5 => intro h; cases h
+  | case6 => intro h; cases h
+
+theorem findSniFrom_builtin_err (b : Bytes) (i : Nat) (e : Err) :
+    findSniFrom (.builtin b) i = .error e → e = .notApplicable ∨ e = .notFound := by
+  fun_induction findSniFrom (.builtin b) i with
+  | case1 => intro h; cases h; right; rfl
+  | case2 i h1 e' hr =>
+    simp only [Loc.len] at h1
+    rw [range_builtin_ok b _ _ (by omega) (by omega)] at hr
+    cases hr
+  | case3 => intro h; cases h; left; rfl
+  | case4 => intro h; cases h; left; rfl
+  | case5 i h1 nm hr typ extLength iNext h2 ht hl e' hr2 =>
+    simp only [Loc.len] at h1 h2
+    rw [range_builtin_ok b _ _ (by omega) (by omega)] at hr2
+    cases hr2
+  | case6 => intro h; cases h; left; rfl
+  | case7 i h1 nm hr typ extLength iNext h2 ht hl nm2 hr2 sniLen hs e' hloop =>
+    simp only [Loc.len] at h1 h2
+    intro h; cases h
+    left
+    exact sniLoop_builtin_err b iNext (i + 6) (by omega) _ hloop
+  | case8 => intro h; cases h
+  | case9 _ _ _ _ _ _ _ _ _ _ _ _ _ _ _ ih => exact ih
+  | case10 _ _ _ _ _ _ _ _ _ ih => exact ih
+
+theorem sliceLoc_builtin_ok (b : Bytes) (i j : Nat) (h1 : i ≤ j) (h2 : j ≤ b.length) :
+    (Loc.builtin b).sliceLoc i j = .ok (.builtin (slice b i j)) := by simp [Loc.sliceLoc, h1, h2]
+
+theorem extractSni_builtin_err (b : Bytes) (e : Err) :
+    extractSni (.builtin b) = .error e → e = .notApplicable ∨ e = .notFound := by
+  unfold extractSni
+  have hlen : (Loc.builtin b).len = b.length := rfl
+  intro h
+  split at h
+  · cases h; left; rfl
+  rename_i h39
+  rw [range_builtin_ok b 0 6 (by omega) (by omega)] at h
+  simp only [] at h
+  split at h
+  · cases h; left; rfl
+  split at h
+  · cases h; left; rfl
+  obtain ⟨sid, hsid⟩ := at_builtin_ok b 38 (by omega)
+  rw [hsid] at h; simp only [] at h
+  split at h
+  · cases h; left; rfl
+  rename_i hb1
+  rw [range_builtin_ok b _ _ (by omega) (by omega)] at h
+  simp only [] at h
+  split at h
+  · cases h; left; rfl
+  rename_i hb2
+  obtain ⟨cm, hcm⟩ := at_builtin_ok b (39 + sid + 2 + be16 (List.getD (slice b (39 + sid + 2 - 2) (39 + sid + 2)) 0 0)
+    (List.getD (slice b (39 + sid + 2 - 2) (39 + sid + 2)) 1 0) + 1 - 1) (by omega)
+  rw [hcm] at h; simp only [] at h
+  split at h
+  · cases h; left; rfl
+  rename_i hb3
+  rw [range_builtin_ok b _ _ (by omega) (by omega)] at h
+  simp only [] at h
+  split at h
+  · cases h; left; rfl
+  rename_i hb4
+  rw [sliceLoc_builtin_ok b _ _ (by omega) (by omega)] at h
+  simp only [] at h
+  exact findSniFrom_builtin_err _ 0 e h
+
+
+/-! ## Soundness: the reported name is a host_name entry of the input -/
+
+theorem slice_getD (b : Bytes) (i j k : Nat) (h : i + k < j) (_hj : j ≤ b.length) :
+    (slice b i j).getD k 0 = b.getD (i + k) 0 := by
+  unfold slice
+  simp only [List.getD_eq_getElem?_getD]
+  rw [List.getElem?_take_of_lt (by omega), List.getElem?_drop]
+
+theorem slice_slice (b : Bytes) (a c p q : Nat) (hq : q ≤ c - a) :
+    slice (slice b a c) p q = slice b (a + p) (a + q) := by
+  unfold slice
+  rw [List.drop_take, List.take_take, List.drop_drop]
+  congr 1
+  omega
+
+/-- The name is a literal host_name entry of the data: type byte 0, two-byte length, the name. -/
+def CarriedIn (x : Bytes) (d : Bytes) : Prop :=
+  ∃ k n, k + 3 + n ≤ x.length ∧ x.getD k 0 = 0 ∧ be16 (x.getD (k + 1) 0) (x.getD (k + 2) 0) = n ∧
+    d = trimDot (slice x (k + 3) (k + 3 + n))
+
+theorem sniLoop_builtin_sound (x : Bytes) (iNext j : Nat) (h : iNext ≤ x.length) (d : Bytes) :
+    sniLoop (.builtin x) iNext j = .ok (some d) → CarriedIn x d := by
+  fun_induction sniLoop (.builtin x) iNext j with
+  | case1 => intro h; cases h
+  | case2 j hj bb hr typ l ht ih => exact ih
+  | case3 => intro h; cases h
+  | case4 => intro h; cases h
+  | case5 j hj b3 hr typ l ht hl nm hr2 =>
+    intro hd
+    rw [range_builtin_ok x _ _ (by omega) (by omega)] at hr hr2
+    cases hr; cases hr2
+    simp only [Except.ok.injEq, Option.some.injEq] at hd
+    refine ⟨j, l, by omega, ?_, ?_, hd.symm⟩
+    · have := slice_getD x j (j + 3) 0 (by omega) (by omega)
+      simp only [Nat.add_zero] at this
+      rw [← this]
+      simpa [typ] using ht
+    · simp only [l]
+      rw [slice_getD x j (j + 3) 1 (by omega) (by omega), slice_getD x j (j + 3) 2 (by omega) (by omega)]
+  | case6 => intro h; cases h
+
+theorem findSniFrom_builtin_sound (x : Bytes) (i : Nat) (d : Bytes) :
+    findSniFrom (.builtin x) i = .ok d → CarriedIn x d := by
+  fun_induction findSniFrom (.builtin x) i with
+  | case1 => intro h; cases h
+  | case2 => intro h; cases h
+  | case3 => intro h; cases h
+  | case4 => intro h; cases h
+  | case5 => intro h; cases h
+  | case6 => intro h; cases h
+  | case7 => intro h; cases h
+  | case8 i h1 nm hr typ extLength iNext h2 ht hl nm2 hr2 sniLen hs nm3 hloop =>
+    simp only [Loc.len] at h1 h2
+    intro h; cases h
+    exact sniLoop_builtin_sound x iNext (i + 6) (by omega) _ hloop
+  | case9 _ _ _ _ _ _ _ _ _ _ _ _ _ _ _ ih => exact ih
+  | case10 _ _ _ _ _ _ _ _ _ ih => exact ih
+
+theorem carriedIn_slice (b : Bytes) (a c : Nat) (d : Bytes) (hc : c ≤ b.length) :
+    CarriedIn (slice b a c) d → CarriedIn b d := by
+  rintro ⟨k, n, hk, h0, hl, hd⟩
+  rw [slice_length b a c hc] at hk
+  refine ⟨a + k, n, by omega, ?_, ?_, ?_⟩
+  · rw [← slice_getD b a c k (by omega) hc]; exact h0
+  · rw [show a + k + 1 = a + (k + 1) by omega, show a + k + 2 = a + (k + 2) by omega,
+      ← slice_getD b a c (k + 1) (by omega) hc, ← slice_getD b a c (k + 2) (by omega) hc]; exact hl
+  · rw [hd, slice_slice b a c _ _ (by omega)]
+    congr 2 <;> omega
+
+theorem extractSni_builtin_sound (b : Bytes) (d : Bytes) :
+    extractSni (.builtin b) = .ok d → CarriedIn b d := by
+  unfold extractSni
+  have hlen : (Loc.builtin b).len = b.length := rfl
+  intro h
+  split at h
+  · cases h
+  rename_i h39
+  rw [range_builtin_ok b 0 6 (by omega) (by omega)] at h
+  simp only [] at h
+  split at h
+  · cases h
+  split at h
+  · cases h
+  obtain ⟨sid, hsid⟩ := at_builtin_ok b 38 (by omega)
+  rw [hsid] at h; simp only [] at h
+  split at h
+  · cases h
+  rename_i hb1
+  rw [range_builtin_ok b _ _ (by omega) (by omega)] at h
+  simp only [] at h
+  split at h
+  · cases h
+  rename_i hb2
+  obtain ⟨cm, hcm⟩ := at_builtin_ok b (39 + sid + 2 + be16 (List.getD (slice b (39 + sid + 2 - 2) (39 + sid + 2)) 0 0)
+    (List.getD (slice b (39 + sid + 2 - 2) (39 + sid + 2)) 1 0) + 1 - 1) (by omega)
+  rw [hcm] at h; simp only [] at h
+  split at h
+  · cases h
+  rename_i hb3
+  rw [range_builtin_ok b _ _ (by omega) (by omega)] at h
+  simp only [] at h
+  split at h
+  · cases h
+  rename_i hb4
+  rw [sliceLoc_builtin_ok b _ _ (by omega) (by omega)] at h
+  simp only [] at h
+  exact carriedIn_slice b _ _ d (by omega) (findSniFrom_builtin_sound _ 0 d h)
+
+
+/-! ## Records, prefixes of records, chunked delivery -/
+
+theorem record_length (rm : Nat) (hs : Bytes) : (record rm hs).length = 5 + hs.length := by
+  simp [record, u16]; omega
+
+theorem sniffTls_record_append (rm : Nat) (hs extra : Bytes) :
+    sniffTls (record rm hs ++ extra) = extractSni (.builtin hs) := by
+  unfold sniffTls
+  have e : record rm hs ++ extra = 22 :: 3 :: rm :: (hs.length / 256) :: (hs.length % 256) :: (hs ++ extra) := by
+    simp [record, u16]
+  rw [e]
+  simp only [List.length_cons, List.getD_cons_zero, List.getD_cons_succ, be16_u16, List.drop_succ_cons, List.drop_zero]
+  rw [if_neg (by omega), if_neg (by simp), if_neg (by simp)]
+  simp
+
+theorem sniffTls_record_prefix (rm : Nat) (hs : Bytes) (k : Nat) (h5 : 5 ≤ k)
+    (hk : k < (record rm hs).length) : sniffTls ((record rm hs).take k) = .error .needMore := by
+  rw [record_length] at hk
+  obtain ⟨m, rfl⟩ : ∃ m, k = 5 + m := ⟨k - 5, by omega⟩
+  have e : (record rm hs).take (5 + m) = 22 :: 3 :: rm :: (hs.length / 256) :: (hs.length % 256) :: hs.take m := by
+    simp [record, u16, show 5 + m = m + 1 + 1 + 1 + 1 + 1 by omega]
+  unfold sniffTls
+  rw [e]
+  simp only [List.length_cons, List.getD_cons_zero, List.getD_cons_succ, be16_u16, List.drop_succ_cons, List.drop_zero]
+  rw [if_neg (by omega), if_neg (by simp), if_pos (by simp; omega)]
+
+/-- What the TLS branch of `sniffGroup` answers for a complete record carrying `hs`. -/
+def tlsAnswer (hs : Bytes) : Except Err Bytes :=
+  match extractSni (.builtin hs) with
+  | .ok d => .ok (normalizeDomain d)
+  | .error e => .error e
+
+theorem sniffHttp_record (rm : Nat) (hs extra : Bytes) :
+    sniffHttp (record rm hs ++ extra) = .error .notApplicable := by
+  simp [record, sniffHttp, isPrintByte]
+
+theorem sniffGroupTcp_record (rm : Nat) (hs extra : Bytes) :
+    sniffGroupTcp (record rm hs ++ extra) = tlsAnswer hs := by
+  unfold sniffGroupTcp tlsAnswer
+  rw [sniffTls_record_append, sniffHttp_record]
+  cases h : extractSni (.builtin hs) with
+  | ok d => rfl
+  | error e => cases e <;> rfl
+
+theorem tlsAnswer_ne_needMore (hs : Bytes) : tlsAnswer hs ≠ .error .needMore := by
+  unfold tlsAnswer
+  cases h : extractSni (.builtin hs) with
+  | ok d => simp
+  | error e =>
+    rcases extractSni_builtin_err hs e h with rfl | rfl <;> simp
+
+theorem sniffGroupTcp_prefix (rm : Nat) (hs : Bytes) (k : Nat) (h5 : 5 ≤ k)
+    (hk : k < (record rm hs).length) : sniffGroupTcp ((record rm hs).take k) = .error .needMore := by
+  unfold sniffGroupTcp
+  rw [sniffTls_record_prefix rm hs k h5 hk]
+
+theorem sniffLoop_chunks (rm : Nat) (hs : Bytes) (chunks : List Bytes) (buf extra : Bytes)
+    (tail : List Ev) (nm : Bool)
+    (hflat : buf ++ chunks.flatten = record rm hs ++ extra)
+    (hbuf : buf.length < (record rm hs).length)
+    (h5 : (buf = [] ∧ ∃ c cs, chunks = c :: cs ∧ 5 ≤ c.length) ∨ 5 ≤ buf.length) :
+    (sniffLoop buf nm (chunks.map Ev.data ++ tail)).result = tlsAnswer hs := by
+  induction chunks generalizing buf nm with
+  | nil =>
+    simp at hflat
+    rw [hflat] at hbuf
+    simp at hbuf
+    omega
+  | cons c cs ih =>
+    have hne : buf ++ c ≠ [] := by
+      rcases h5 with ⟨_, c', cs', hc, hl⟩ | h
+      · cases hc; intro h0; simp at h0; rw [h0.2] at hl; simp at hl
+      · intro h0; simp at h0; rw [h0.1] at h; simp at h
+    have h5' : 5 ≤ (buf ++ c).length := by
+      rcases h5 with ⟨hb, c', cs', hc, hl⟩ | h
+      · cases hc; simp [hb]; exact hl
+      · simp; omega
+    have hflat' : (buf ++ c) ++ cs.flatten = record rm hs ++ extra := by
+      simpa [List.append_assoc] using hflat
+    simp only [List.map_cons, List.cons_append]
+    rw [sniffLoop, if_neg hne]
+    by_cases hlt : (buf ++ c).length < (record rm hs).length
+    · have hpre : buf ++ c = (record rm hs).take (buf ++ c).length := by
+        have h1 : ((buf ++ c) ++ cs.flatten).take (buf ++ c).length = buf ++ c := List.take_left' rfl
+        rw [hflat', List.take_append_of_le_length (by omega)] at h1
+        exact h1.symm
+      rw [hpre, sniffGroupTcp_prefix rm hs _ h5' hlt]
+      simp only []
+      rw [← hpre]
+      exact ih (buf ++ c) true hflat' hlt (Or.inr h5')
+    · have hsplit : buf ++ c = record rm hs ++ (buf ++ c).drop (record rm hs).length := by
+        have h1 : ((buf ++ c) ++ cs.flatten).take (record rm hs).length = (buf ++ c).take (record rm hs).length := by
+          rw [List.take_append_of_le_length (by omega)]
+        rw [hflat'] at h1
+        simp at h1
+        conv => lhs; rw [← List.take_append_drop (record rm hs).length (buf ++ c)]
+        rw [← h1]
+      rw [hsplit, sniffGroupTcp_record]
+      have := tlsAnswer_ne_needMore hs
+      split
+      · rename_i heq; exact absurd heq this
+      · rfl
+
+
+/-! ## HTTP heads -/
+
+theorem noCRLF_tail (x : Nat) (l : Bytes) (h : noCRLF (x :: l) = true) : noCRLF l = true := by
+  unfold noCRLF at h
+  split at h
+  · rename_i heq; cases heq
+  · cases h
+  · rename_i _ heq; cases heq; exact h
+
+theorem noCRLF_not_head (l : Bytes) : noCRLF (13 :: 10 :: l) = false := by
+  unfold noCRLF; rfl
+
+theorem splitLinesAux_step (acc : Bytes) (x : Nat) (r : Bytes) (h : ¬ (x = 13 ∧ ∃ t, r = 10 :: t)) :
+    splitLinesAux acc (x :: r) = splitLinesAux (x :: acc) r := by
+  rw [splitLinesAux]
+  intro t h1 h2
+  exact h ⟨h1, t, h2⟩
+
+theorem splitLinesAux_line (l : Bytes) (acc rest : Bytes) (h : noCRLF l = true) :
+    splitLinesAux acc (l ++ 13 :: 10 :: rest) = (acc.reverse ++ l) :: splitLinesAux [] rest := by
+  induction l generalizing acc with
+  | nil => simp [splitLinesAux]
+  | cons x l ih =>
+    have hl := noCRLF_tail x l h
+    have step : splitLinesAux acc ((x :: l) ++ 13 :: 10 :: rest) = splitLinesAux (x :: acc) (l ++ 13 :: 10 :: rest) := by
+      apply splitLinesAux_step
+      rintro ⟨hx, t, ht⟩
+      subst hx
+      cases l with
+      | nil => simp at ht
+      | cons y l' =>
+        simp at ht
+        rw [ht.1, noCRLF_not_head] at h
+        cases h
+    rw [step, ih (x :: acc) hl]
+    simp
+
+theorem splitLines_line (l rest : Bytes) (h : noCRLF l = true) :
+    splitLines (l ++ crlf ++ rest) = l :: splitLines rest := by
+  unfold splitLines
+  have := splitLinesAux_line l [] rest h
+  simpa [crlf] using this
+
+theorem cutByte_append (sep : Nat) (k v : Bytes) (h : sep ∉ k) : cutByte sep (k ++ sep :: v) = some (k, v) := by
+  induction k with
+  | nil => simp [cutByte]
+  | cons x k ih =>
+    have hx : x ≠ sep := by intro e; subst e; simp at h
+    have hk : sep ∉ k := by intro e; exact h (List.mem_cons_of_mem _ e)
+    simp [cutByte, hx, ih hk]
+
+theorem encodeHeaders_lines (hs : List (Bytes × Bytes)) (rest : Bytes)
+    (hok : ∀ kv ∈ hs, noCRLF (kv.1 ++ [58] ++ kv.2) = true) :
+    splitLines (encodeHeaders hs ++ rest) = hs.map (fun kv => kv.1 ++ [58] ++ kv.2) ++ splitLines rest := by
+  induction hs with
+  | nil => simp [encodeHeaders]
+  | cons kv hs ih =>
+    obtain ⟨k, v⟩ := kv
+    have h1 := hok (k, v) (List.mem_cons_self)
+    have e : encodeHeaders ((k, v) :: hs) ++ rest = (k ++ [58] ++ v) ++ crlf ++ (encodeHeaders hs ++ rest) := by
+      simp [encodeHeaders, List.append_assoc]
+    rw [e, splitLines_line _ _ h1, ih (fun kv hkv => hok kv (List.mem_cons_of_mem _ hkv))]
+    simp
+
+theorem hostFromLines_headers (hs : List (Bytes × Bytes)) (tail : List Bytes)
+    (hk : ∀ kv ∈ hs, 58 ∉ kv.1) :
+    hostFromLines (hs.map (fun kv => kv.1 ++ [58] ++ kv.2) ++ [] :: tail) = hostSpec hs := by
+  induction hs with
+  | nil => simp [hostFromLines, hostSpec]
+  | cons kv hs ih =>
+    obtain ⟨k, v⟩ := kv
+    have hc : cutByte 58 (k ++ [58] ++ v) = some (k, v) := by
+      have := cutByte_append 58 k v (hk (k, v) List.mem_cons_self)
+      simpa using this
+    simp only [List.map_cons, List.cons_append]
+    rw [hostFromLines, if_neg (by simp), hc]
+    simp only [hostSpec]
+    rw [ih (fun kv hkv => hk kv (List.mem_cons_of_mem _ hkv))]
+
+theorem httpMethods_eq : httpMethods = [[71,69,84],[80,79,83,84],[80,85,84],[80,65,84,67,72],[68,69,76,69,84,69],[67,79,80,89],[72,69,65,68],[79,80,84,73,79,78,83],[76,73,78,75],[85,78,76,73,78,75],[80,85,82,71,69],[76,79,67,75],[85,78,76,79,67,75],[80,82,79,80,70,73,78,68],[67,79,78,78,69,67,84],[84,82,65,67,69]] := by decide
+
+/-- Facts about the sixteen method tokens (checked by evaluation). -/
+theorem method_facts (m : Bytes) (hm : m ∈ httpMethods) :
+    m.dropWhile isAsciiSpace = m ∧ m.reverse.dropWhile isAsciiSpace = m.reverse ∧ m ≠ [] ∧
+    58 ∉ m ∧ 32 ∉ m ∧ m.length ≤ 11 ∧ (lower m).isPrefixOf [104, 111, 115, 116] = false ∧
+    (∃ c r, m = c :: r ∧ isPrintByte c = true) := by
+  rw [httpMethods_eq] at hm
+  simp only [List.mem_cons, List.not_mem_nil, or_false] at hm
+  rcases hm with rfl | rfl | rfl | rfl | rfl | rfl | rfl | rfl | rfl | rfl | rfl | rfl | rfl | rfl | rfl | rfl <;>
+    exact ⟨by decide, by decide, by decide, by decide, by decide, by decide, by decide, ⟨_, _, rfl, by decide⟩⟩
+
+theorem cutByte_prefix (sep : Nat) (a b k v : Bytes) (ha : sep ∉ a)
+    (h : cutByte sep (a ++ b) = some (k, v)) : ∃ k', k = a ++ k' := by
+  induction a generalizing k v with
+  | nil => exact ⟨k, rfl⟩
+  | cons x a ih =>
+    have hx : x ≠ sep := by intro e; subst e; simp at ha
+    have hk : sep ∉ a := by intro e; exact ha (List.mem_cons_of_mem _ e)
+    simp only [List.cons_append, cutByte, hx, if_false] at h
+    cases hc : cutByte sep (a ++ b) with
+    | none => rw [hc] at h; cases h
+    | some kv =>
+      obtain ⟨k1, v1⟩ := kv
+      rw [hc] at h
+      simp only [Option.some.injEq, Prod.mk.injEq] at h
+      obtain ⟨k', hk'⟩ := ih k1 v1 hk hc
+      exact ⟨k', by rw [← h.1, hk']; rfl⟩
+
+theorem trimSpace_method_prefix (m w : Bytes) (hm : m ∈ httpMethods) :
+    ∃ w', trimSpace (m ++ w) = m ++ w' := by
+  obtain ⟨h1, h2, hne, _, _, _, _, _⟩ := method_facts m hm
+  unfold trimSpace dropRightWhile
+  have e1 : (m ++ w).dropWhile isAsciiSpace = m ++ w := by
+    rw [List.dropWhile_append, h1]
+    cases m with
+    | nil => exact absurd rfl hne
+    | cons c r => simp
+  rw [e1, List.reverse_append, List.dropWhile_append]
+  split
+  · rw [h2]; exact ⟨[], by simp⟩
+  · exact ⟨(w.reverse.dropWhile isAsciiSpace).reverse, by simp⟩
+
+theorem lower_append (a b : Bytes) : lower (a ++ b) = lower a ++ lower b := by simp [lower]
+
+theorem method_line_not_host (m t k v : Bytes) (hm : m ∈ httpMethods)
+    (h : cutByte 58 (m ++ 32 :: t) = some (k, v)) : isHostKey (trimSpace k) = false := by
+  obtain ⟨_, _, _, h58, _, _, hpre, _⟩ := method_facts m hm
+  obtain ⟨k', rfl⟩ := cutByte_prefix 58 m (32 :: t) k v h58 h
+  obtain ⟨w', hw'⟩ := trimSpace_method_prefix m k' hm
+  rw [hw']
+  unfold isHostKey
+  rw [lower_append]
+  cases hb : (lower m ++ lower w' == [104, 111, 115, 116]) with
+  | false => rfl
+  | true =>
+    have heq : lower m ++ lower w' = [104, 111, 115, 116] := by simpa using hb
+    have : (lower m).isPrefixOf [104, 111, 115, 116] = true := by
+      rw [List.isPrefixOf_iff_prefix]; exact ⟨lower w', heq⟩
+    rw [this] at hpre; cases hpre
+
+theorem hostFromLines_reqline (m t : Bytes) (rest : List Bytes) (hm : m ∈ httpMethods) :
+    hostFromLines ((m ++ 32 :: t) :: rest) = hostFromLines rest := by
+  rw [hostFromLines, if_neg (by simp)]
+  cases hc : cutByte 58 (m ++ 32 :: t) with
+  | none => rfl
+  | some kv =>
+    obtain ⟨k, v⟩ := kv
+    simp only []
+    rw [method_line_not_host m t k v hm hc]
+    simp
+
+/-- Well-formed request head: a known method, no CRLF inside the request line or a header line,
+no colon inside a header name. -/
+def HttpHead.WF (h : HttpHead) : Prop :=
+  h.method ∈ httpMethods ∧ noCRLF (h.method ++ [32] ++ h.target) = true ∧
+  ∀ kv ∈ h.headers, noCRLF (kv.1 ++ [58] ++ kv.2) = true ∧ 58 ∉ kv.1
+
+theorem sniffHttp_encodeHead (h : HttpHead) (hwf : h.WF) :
+    sniffHttp (encodeHead h) = hostSpec h.headers := by
+  obtain ⟨hm, hreq, hhd⟩ := hwf
+  obtain ⟨_, _, hne, _, h32, hlen, _, c, r, hcr, hprint⟩ := method_facts h.method hm
+  have e0 : encodeHead h = h.method ++ 32 :: (h.target ++ crlf ++ encodeHeaders h.headers ++ crlf ++ h.body) := by
+    simp [encodeHead, List.append_assoc]
+  have hcut : cutByte 32 ((encodeHead h).take 12) = some (h.method, ((h.target ++ crlf ++ encodeHeaders h.headers ++ crlf ++ h.body)).take (11 - h.method.length)) := by
+    rw [e0, List.take_append, List.take_of_length_le (by omega)]
+    have : 12 - h.method.length = (11 - h.method.length) + 1 := by omega
+    rw [this, List.take_succ_cons]
+    exact cutByte_append 32 _ _ h32
+  have hlines : splitLines (encodeHead h)
+      = (h.method ++ 32 :: h.target) :: (h.headers.map (fun kv => kv.1 ++ [58] ++ kv.2) ++ [] :: splitLines h.body) := by
+    have e1 : encodeHead h = (h.method ++ [32] ++ h.target) ++ crlf ++ (encodeHeaders h.headers ++ (crlf ++ h.body)) := by
+      simp [encodeHead, List.append_assoc]
+    rw [e1, splitLines_line _ _ hreq, encodeHeaders_lines _ _ (fun kv hkv => (hhd kv hkv).1)]
+    have e2 : crlf ++ h.body = [] ++ crlf ++ h.body := by simp
+    rw [e2, splitLines_line [] _ rfl]
+    simp
+  unfold sniffHttp
+  rw [e0, hcr]
+  simp only [List.cons_append]
+  rw [← List.cons_append, ← hcr, ← e0, hprint]
+  simp only [Bool.not_true, Bool.false_eq_true, if_false]
+  rw [hcut]
+  simp only []
+  rw [if_pos (by simpa using hm)]
+  unfold sniffHTTPHostHeader
+  rw [hlines, hostFromLines_reqline _ _ _ hm, hostFromLines_headers _ _ (fun kv hkv => (hhd kv hkv).2)]
+
+
+/-! ## Soundness for any locator that only ever hands out bytes of `S` -/
+
+/-- Every successful `Range(i, j)` of `s` is the slice `[off+i, off+j)` of `S`. -/
+def SoundAt (s : Loc) (S : Bytes) (off : Nat) : Prop :=
+  ∀ i j x, s.range i j = .ok x → i ≤ j → x = slice S (off + i) (off + j) ∧ (i < j → off + j ≤ S.length)
+
+theorem sniLoop_sound (s : Loc) (S : Bytes) (off : Nat) (hs : SoundAt s S off) (iNext j : Nat) (d : Bytes) :
+    sniLoop s iNext j = .ok (some d) → CarriedIn S d := by
+  fun_induction sniLoop s iNext j with
+  | case1 => intro h; cases h
+  | case2 j hj bb hr typ l ht ih => exact ih
+  | case3 => intro h; cases h
+  | case4 => intro h; cases h
+  | case5 j hj b3 hr typ l ht hl nm hr2 =>
+    intro hd
+    obtain ⟨e1, b1⟩ := hs _ _ _ hr (by omega)
+    obtain ⟨e2, b2⟩ := hs _ _ _ hr2 (by omega)
+    have hb1 := b1 (by omega)
+    simp only [Except.ok.injEq, Option.some.injEq] at hd
+    have htyp : S.getD (off + j) 0 = 0 := by
+      have := slice_getD S (off + j) (off + (j + 3)) 0 (by omega) hb1
+      simp only [Nat.add_zero] at this
+      rw [← this, ← e1]
+      simpa [typ] using ht
+    have hl' : be16 (S.getD (off + j + 1) 0) (S.getD (off + j + 2) 0) = l := by
+      simp only [l]
+      rw [e1, slice_getD S (off + j) (off + (j + 3)) 1 (by omega) hb1,
+        slice_getD S (off + j) (off + (j + 3)) 2 (by omega) hb1]
+    refine ⟨off + j, l, ?_, htyp, hl', ?_⟩
+    · by_cases h0 : l = 0
+      · omega
+      · have := b2 (by omega); omega
+    · rw [← hd, e2]
+      congr 2 <;> omega
+  | case6 => intro h; cases h
+
+theorem findSniFrom_sound (s : Loc) (S : Bytes) (off : Nat) (hs : SoundAt s S off) (i : Nat) (d : Bytes) :
+    findSniFrom s i = .ok d → CarriedIn S d := by
+  fun_induction findSniFrom s i with
+  | case1 => intro h; cases h
+  | case2 => intro h; cases h
+  | case3 => intro h; cases h
+  | case4 => intro h; cases h
+  | case5 => intro h; cases h
+  | case6 => intro h; cases h
+  | case7 => intro h; cases h
+  | case8 i h1 nm hr typ extLength iNext h2 ht hl nm2 hr2 sniLen hs' nm3 hloop =>
+    intro h; cases h
+    exact sniLoop_sound s S off hs iNext (i + 6) _ hloop
+  | case9 _ _ _ _ _ _ _ _ _ _ _ _ _ _ _ ih => exact ih
+  | case10 _ _ _ _ _ _ _ _ _ ih => exact ih
+
+theorem extractSni_sound (s : Loc) (S : Bytes)
+    (hsl : ∀ a b s', s.sliceLoc a b = .ok s' → SoundAt s' S a) (d : Bytes) :
+    extractSni s = .ok d → CarriedIn S d := by
+  unfold extractSni
+  intro h
+  split at h
+  · cases h
+  split at h
+  · cases h
+  try simp only [] at h
+  split at h
+  · cases h
+  split at h
+  · cases h
+  split at h
+  · cases h
+  try simp only [] at h
+  split at h
+  · cases h
+  split at h
+  · cases h
+  try simp only [] at h
+  split at h
+  · cases h
+  split at h
+  · cases h
+  try simp only [] at h
+  split at h
+  · cases h
+  split at h
+  · cases h
+  try simp only [] at h
+  split at h
+  · cases h
+  split at h
+  · cases h
+  rename_i exts hexts
+  exact findSniFrom_sound exts S _ (hsl _ _ _ hexts) 0 d h
+
+theorem soundAt_builtin_slice (b : Bytes) (a c : Nat) (s' : Loc)
+    (h : (Loc.builtin b).sliceLoc a c = .ok s') : SoundAt s' b a := by
+  simp only [Loc.sliceLoc] at h
+  split at h
+  · rename_i hc
+    cases h
+    intro i j x hx hij
+    simp only [Loc.range] at hx
+    split at hx
+    · rename_i hj
+      cases hx
+      rw [slice_length b a c hc.2] at hj
+      exact ⟨slice_slice b a c i j hj.2, fun _ => by omega⟩
+    · cases hx
+  · cases h
+
+theorem extractSni_builtin_sound' (b d : Bytes) : extractSni (.builtin b) = .ok d → CarriedIn b d :=
+  extractSni_sound (.builtin b) b (soundAt_builtin_slice b) d
+
+
+/-! ## The linear locator over blocks that are slices of one stream -/
+
+/-- The block holds exactly the bytes `[off, stop)` of the stream `S`. -/
+def Within (S : Bytes) (b : Block) : Prop := b.stop ≤ S.length ∧ b.data = slice S b.off b.stop
+
+theorem slice_append_slice (S : Bytes) (a b c : Nat) (h1 : a ≤ b) (h2 : b ≤ c) (_h3 : c ≤ S.length) :
+    slice S a b ++ slice S b c = slice S a c := by
+  unfold slice
+  have e : List.drop b S = List.drop (b - a) (List.drop a S) := by rw [List.drop_drop]; congr 1; omega
+  rw [e]
+  have : c - a = (b - a) + (c - b) := by omega
+  rw [this, List.take_add]
+
+theorem drop_slice (S : Bytes) (a b k : Nat) : (slice S a b).drop k = slice S (a + k) b := by
+  unfold slice
+  rw [List.drop_take, List.drop_drop]
+  congr 1
+  omega
+
+theorem gather_sound (S : Bytes) (cur : Block) (rest : List Block) (i j : Nat) (x : Bytes)
+    (hc : Within S cur) (hr : ∀ b ∈ rest, Within S b) (hi : cur.off ≤ i) (hi2 : i ≤ cur.stop) (hij : i ≤ j)
+    (h : gather cur rest i j = .ok x) : x = slice S i j ∧ j ≤ max cur.stop S.length ∧ (cur.stop < j → j ≤ S.length) := by
+  induction rest generalizing cur i x with
+  | nil =>
+    unfold gather at h
+    split at h
+    · rename_i hj
+      cases h
+      refine ⟨?_, by omega, by omega⟩
+      rw [hc.2, slice_slice S cur.off cur.stop _ _ (by omega)]
+      congr 1 <;> omega
+    · cases h
+  | cons nx rest ih =>
+    unfold gather at h
+    split at h
+    · rename_i hj
+      cases h
+      refine ⟨?_, by omega, by omega⟩
+      rw [hc.2, slice_slice S cur.off cur.stop _ _ (by omega)]
+      congr 1 <;> omega
+    · rename_i hj
+      split at h
+      · rename_i heq; cases heq
+      · rename_i nx' rest' heq
+        cases heq
+        split at h
+        · rename_i hadj
+          split at h
+          · rename_i r hg
+            cases h
+            have hnx := hr nx List.mem_cons_self
+            have hb : nx.off ≤ nx.stop := by unfold Block.stop; omega
+            obtain ⟨e, _, hle⟩ := ih nx nx.off r hnx (fun b hb => hr b (List.mem_cons_of_mem _ hb))
+              (Nat.le_refl _) hb (by omega) hg
+            have hjS : j ≤ S.length := by
+              by_cases hq : nx.stop < j
+              · exact hle hq
+              · have := hnx.1; omega
+            refine ⟨?_, by omega, fun _ => hjS⟩
+            rw [e, hc.2, drop_slice, ← hadj]
+            rw [show cur.off + (i - cur.off) = i by omega]
+            exact slice_append_slice S i cur.stop j hi2 (by omega) hjS
+          · cases h
+        · cases h
+
+theorem locate_spec (blocks : List Block) (p : Nat) (cur : Block) (rest : List Block)
+    (h : locate blocks p = some (cur, rest)) :
+    p < cur.stop ∧ cur ∈ blocks ∧ ∀ b ∈ rest, b ∈ blocks := by
+  induction blocks with
+  | nil => cases h
+  | cons b bs ih =>
+    unfold locate at h
+    split at h
+    · rename_i hp
+      cases h
+      exact ⟨hp, List.mem_cons_self, fun b hb => List.mem_cons_of_mem _ hb⟩
+    · obtain ⟨h1, h2, h3⟩ := ih h
+      exact ⟨h1, List.mem_cons_of_mem _ h2, fun b hb => List.mem_cons_of_mem _ (h3 b hb)⟩
+
+theorem linRange_sound (S : Bytes) (blocks : List Block) (hw : ∀ b ∈ blocks, Within S b)
+    (i j : Nat) (x : Bytes) (hij : i < j) (h : linRange blocks i j = .ok x) :
+    x = slice S i j ∧ j ≤ S.length := by
+  unfold linRange at h
+  split at h
+  · cases h
+  · rename_i cur rest hloc
+    obtain ⟨hp, hcur, hrest⟩ := locate_spec blocks i cur rest hloc
+    split at h
+    · cases h
+    · rename_i hoff
+      obtain ⟨e, hm, hl⟩ := gather_sound S cur rest i j x (hw cur hcur) (fun b hb => hw b (hrest b hb))
+        (by omega) (by omega) (by omega) h
+      refine ⟨e, ?_⟩
+      have := (hw cur hcur).1
+      by_cases hq : cur.stop < j
+      · exact hl hq
+      · omega
+
+theorem soundAt_linear (S : Bytes) (blocks : List Block) (hw : ∀ b ∈ blocks, Within S b) (left len : Nat) :
+    SoundAt (.linear blocks left len) S left := by
+  intro i j x hx hij
+  simp only [Loc.range] at hx
+  split at hx
+  · rename_i heq
+    cases hx
+    subst heq
+    refine ⟨?_, fun h => absurd h (Nat.lt_irrefl _)⟩
+    unfold slice; simp
+  · rename_i hne
+    obtain ⟨e, hl⟩ := linRange_sound S blocks hw (i + left) (j + left) x (by omega) hx
+    refine ⟨?_, fun _ => by omega⟩
+    rw [e, Nat.add_comm i, Nat.add_comm j]
+
+/-- QUIC soundness: whatever CRYPTO blocks have been collected, as long as each is a slice of the
+client's CRYPTO stream `S`, a reported name is a host_name entry of `S`. -/
+theorem extractSni_linear_sound (S : Bytes) (blocks : List Block) (hw : ∀ b ∈ blocks, Within S b) (d : Bytes) :
+    extractSni (newLinear blocks) = .ok d → CarriedIn S d := by
+  apply extractSni_sound
+  intro a b s' hs'
+  unfold newLinear at hs'
+  split at hs'
+  · simp only [Loc.sliceLoc] at hs'
+    cases hs'
+    simpa using soundAt_linear S [] (by simp) (0 + a) (b - a + 1)
+  · simp only [Loc.sliceLoc] at hs'
+    cases hs'
+    simpa using soundAt_linear S blocks hw (0 + a) (b - a + 1)
+
+
+/-! ## CRYPTO reassembly: sort + merge -/
+
+theorem mem_insertBlock (x y : Block) (l : List Block) : y ∈ insertBlock x l ↔ y = x ∨ y ∈ l := by
+  induction l with
+  | nil => simp [insertBlock]
+  | cons z zs ih =>
+    unfold insertBlock
+    split
+    · simp
+    · simp [ih]
+      constructor <;> (intro h; rcases h with h | h | h <;> simp [h])
+
+theorem mem_sortBlocks (y : Block) (l : List Block) : y ∈ sortBlocks l ↔ y ∈ l := by
+  induction l with
+  | nil => simp [sortBlocks]
+  | cons z zs ih => simp [sortBlocks, mem_insertBlock, ih]
+
+def SortedOff (l : List Block) : Prop := l.Pairwise (fun a b => a.off ≤ b.off)
+
+theorem sorted_insertBlock (x : Block) (l : List Block) (h : SortedOff l) : SortedOff (insertBlock x l) := by
+  induction l with
+  | nil => simp [insertBlock, SortedOff]
+  | cons z zs ih =>
+    unfold SortedOff at h ih ⊢
+    rw [List.pairwise_cons] at h
+    unfold insertBlock
+    split
+    · rename_i hle
+      rw [List.pairwise_cons]
+      refine ⟨?_, List.pairwise_cons.mpr h⟩
+      intro b hb
+      rcases List.mem_cons.mp hb with rfl | hb
+      · exact hle
+      · exact Nat.le_trans hle (h.1 b hb)
+    · rename_i hle
+      rw [List.pairwise_cons]
+      refine ⟨?_, ih h.2⟩
+      intro b hb
+      rcases (mem_insertBlock x b zs).mp hb with rfl | hb
+      · omega
+      · exact h.1 b hb
+
+theorem sorted_sortBlocks (l : List Block) : SortedOff (sortBlocks l) := by
+  induction l with
+  | nil => simp [sortBlocks, SortedOff]
+  | cons z zs ih => exact sorted_insertBlock z _ ih
+
+def covers (b : Block) (p : Nat) : Prop := b.off ≤ p ∧ p < b.stop
+
+theorem stop_mk (o : Nat) (d : Bytes) : (Block.mk o d).stop = o + d.length := rfl
+
+theorem within_extend (S : Bytes) (cur nx : Block) (hc : Within S cur) (hn : Within S nx)
+    (h1 : nx.off ≤ cur.stop) (h2 : cur.stop < nx.stop) (_h3 : cur.off ≤ nx.off) :
+    Within S ⟨cur.off, cur.data ++ nx.data.drop (cur.stop - nx.off)⟩ := by
+  have hco : cur.off ≤ cur.stop := by unfold Block.stop; omega
+  have key : cur.data ++ nx.data.drop (cur.stop - nx.off) = slice S cur.off nx.stop := by
+    have e : cur.data ++ nx.data.drop (cur.stop - nx.off)
+        = slice S cur.off cur.stop ++ (slice S nx.off nx.stop).drop (cur.stop - nx.off) := by
+      rw [← hc.2, ← hn.2]
+    rw [e, drop_slice, show nx.off + (cur.stop - nx.off) = cur.stop by omega]
+    exact slice_append_slice S cur.off cur.stop nx.stop hco (by omega) hn.1
+  have hstop : (Block.mk cur.off (cur.data ++ nx.data.drop (cur.stop - nx.off))).stop = nx.stop := by
+    rw [stop_mk, key, slice_length S _ _ hn.1]; omega
+  exact ⟨by rw [hstop]; exact hn.1, by rw [hstop]; exact key⟩
+
+theorem mergeInto_within (S : Bytes) (rest : List Block) (cur : Block) (hc : Within S cur)
+    (hr : ∀ b ∈ rest, Within S b) (hs : SortedOff (cur :: rest)) :
+    ∀ b ∈ mergeInto cur rest, Within S b := by
+  induction rest generalizing cur with
+  | nil => intro b hb; simp [mergeInto] at hb; subst hb; exact hc
+  | cons nx rest ih =>
+    have hnx := hr nx List.mem_cons_self
+    have hrr : ∀ b ∈ rest, Within S b := fun b hb => hr b (List.mem_cons_of_mem _ hb)
+    unfold SortedOff at hs
+    rw [List.pairwise_cons, List.pairwise_cons] at hs
+    obtain ⟨hs1, hs2, hs3⟩ := hs
+    have hsub : ∀ c : Block, c.off = cur.off → SortedOff (c :: rest) := by
+      intro c hcoff
+      unfold SortedOff
+      rw [List.pairwise_cons]
+      exact ⟨fun b hb => by rw [hcoff]; exact hs1 b (List.mem_cons_of_mem _ hb), hs3⟩
+    unfold mergeInto
+    split
+    · rename_i hle
+      split
+      · rename_i hgt
+        exact ih _ (within_extend S cur nx hc hnx hle hgt (hs1 nx List.mem_cons_self)) hrr (hsub _ rfl)
+      · exact ih cur hc hrr (hsub _ rfl)
+    · intro b hb
+      rcases List.mem_cons.mp hb with rfl | hb
+      · exact hc
+      · exact ih nx hnx hrr (by unfold SortedOff; rw [List.pairwise_cons]; exact ⟨hs2, hs3⟩) b hb
+
+theorem mergeInto_covers (rest : List Block) (cur : Block) (hs : SortedOff (cur :: rest)) (p : Nat) :
+    (∃ b ∈ mergeInto cur rest, covers b p) ↔ (covers cur p ∨ ∃ b ∈ rest, covers b p) := by
+  induction rest generalizing cur with
+  | nil => simp [mergeInto]
+  | cons nx rest ih =>
+    unfold SortedOff at hs
+    rw [List.pairwise_cons, List.pairwise_cons] at hs
+    obtain ⟨hs1, hs2, hs3⟩ := hs
+    have hoff := hs1 nx List.mem_cons_self
+    have hsub : ∀ c : Block, c.off = cur.off → SortedOff (c :: rest) := by
+      intro c hcoff
+      unfold SortedOff
+      rw [List.pairwise_cons]
+      exact ⟨fun b hb => by rw [hcoff]; exact hs1 b (List.mem_cons_of_mem _ hb), hs3⟩
+    unfold mergeInto
+    split
+    · rename_i hle
+      split
+      · rename_i hgt
+        rw [ih ⟨cur.off, cur.data ++ nx.data.drop (cur.stop - nx.off)⟩ (hsub _ rfl)]
+        have hst : (Block.mk cur.off (cur.data ++ nx.data.drop (cur.stop - nx.off))).stop = nx.stop := by
+          rw [stop_mk]; simp only [List.length_append, List.length_drop]; unfold Block.stop at *; omega
+        simp only [covers, hst, List.mem_cons, exists_eq_or_imp]
+        constructor
+        · rintro (⟨h1, h2⟩ | h)
+          · by_cases hq : p < cur.stop
+            · left; exact ⟨h1, hq⟩
+            · right; left; exact ⟨by omega, h2⟩
+          · right; right; exact h
+        · rintro (⟨h1, h2⟩ | ⟨h1, h2⟩ | h)
+          · left; exact ⟨h1, by omega⟩
+          · left; exact ⟨by omega, h2⟩
+          · right; exact h
+      · rename_i hgt
+        rw [ih cur (hsub _ rfl)]
+        simp only [covers, List.mem_cons, exists_eq_or_imp]
+        constructor
+        · rintro (h | h)
+          · left; exact h
+          · right; right; exact h
+        · rintro (h | ⟨h1, h2⟩ | h)
+          · left; exact h
+          · left; exact ⟨by omega, by omega⟩
+          · right; exact h
+    · simp only [List.mem_cons, exists_eq_or_imp]
+      rw [ih nx (by unfold SortedOff; rw [List.pairwise_cons]; exact ⟨hs2, hs3⟩)]
+
+/-- Output blocks are strictly separated: a gap of at least one byte between neighbours. -/
+def Separated (l : List Block) : Prop := l.Pairwise (fun a b => a.stop < b.off)
+
+theorem mergeInto_sep (rest : List Block) (cur : Block) (hs : SortedOff (cur :: rest)) :
+    Separated (mergeInto cur rest) ∧ ∀ b ∈ mergeInto cur rest, cur.off ≤ b.off := by
+  induction rest generalizing cur with
+  | nil => simp [mergeInto, Separated]
+  | cons nx rest ih =>
+    unfold SortedOff at hs
+    rw [List.pairwise_cons, List.pairwise_cons] at hs
+    obtain ⟨hs1, hs2, hs3⟩ := hs
+    have hsub : ∀ c : Block, c.off = cur.off → SortedOff (c :: rest) := by
+      intro c hcoff
+      unfold SortedOff
+      rw [List.pairwise_cons]
+      exact ⟨fun b hb => by rw [hcoff]; exact hs1 b (List.mem_cons_of_mem _ hb), hs3⟩
+    unfold mergeInto
+    split
+    · split
+      · exact ih _ (hsub _ rfl)
+      · exact ih cur (hsub _ rfl)
+    · rename_i hgt
+      obtain ⟨h1, h2⟩ := ih nx (by unfold SortedOff; rw [List.pairwise_cons]; exact ⟨hs2, hs3⟩)
+      constructor
+      · unfold Separated
+        rw [List.pairwise_cons]
+        exact ⟨fun b hb => by have := h2 b hb; omega, h1⟩
+      · intro b hb
+        rcases List.mem_cons.mp hb with rfl | hb
+        · exact Nat.le_refl _
+        · have := h2 b hb; have := hs1 nx List.mem_cons_self; omega
+
+
+theorem mergeBlocks_spec (S : Bytes) (l : List Block) (hw : ∀ b ∈ l, Within S b) :
+    (∀ b ∈ mergeBlocks (sortBlocks l), Within S b) ∧ Separated (mergeBlocks (sortBlocks l)) ∧
+    ∀ p, (∃ b ∈ mergeBlocks (sortBlocks l), covers b p) ↔ ∃ b ∈ l, covers b p := by
+  have hsorted := sorted_sortBlocks l
+  have hmem := fun y => mem_sortBlocks y l
+  generalize sortBlocks l = sl at hsorted hmem
+  cases sl with
+  | nil =>
+    refine ⟨by simp [mergeBlocks], by simp [mergeBlocks, Separated], ?_⟩
+    intro p
+    simp only [mergeBlocks, List.not_mem_nil, false_and, exists_false, false_iff]
+    rintro ⟨b, hb, _⟩
+    exact absurd ((hmem b).mpr hb) (by simp)
+  | cons c rest =>
+    have hwc : Within S c := hw c ((hmem c).mp List.mem_cons_self)
+    have hwr : ∀ b ∈ rest, Within S b := fun b hb => hw b ((hmem b).mp (List.mem_cons_of_mem _ hb))
+    refine ⟨mergeInto_within S rest c hwc hwr hsorted, (mergeInto_sep rest c hsorted).1, ?_⟩
+    intro p
+    simp only [mergeBlocks]
+    rw [mergeInto_covers rest c hsorted p]
+    constructor
+    · rintro (h | ⟨b, hb, h⟩)
+      · exact ⟨c, (hmem c).mp List.mem_cons_self, h⟩
+      · exact ⟨b, (hmem b).mp (List.mem_cons_of_mem _ hb), h⟩
+    · rintro ⟨b, hb, h⟩
+      rcases List.mem_cons.mp ((hmem b).mpr hb) with rfl | hb'
+      · left; exact h
+      · right; exact ⟨b, hb', h⟩
+
+theorem pairwise_mem_or {α} (R : α → α → Prop) (l : List α) (hp : l.Pairwise R) (a b : α)
+    (ha : a ∈ l) (hb : b ∈ l) : a = b ∨ R a b ∨ R b a := by
+  induction l with
+  | nil => cases ha
+  | cons x xs ih =>
+    rw [List.pairwise_cons] at hp
+    rcases List.mem_cons.mp ha with rfl | ha' <;> rcases List.mem_cons.mp hb with rfl | hb'
+    · left; rfl
+    · right; left; exact hp.1 b hb'
+    · right; right; exact hp.1 a ha'
+    · exact ih hp.2 ha' hb'
+
+/-- Separated blocks that are slices of `S` and together cover all of `S` are the single block `S`. -/
+theorem complete_single (S : Bytes) (hS : 0 < S.length) (out : List Block)
+    (hw : ∀ b ∈ out, Within S b) (hsep : Separated out)
+    (hcov : ∀ p, p < S.length → ∃ b ∈ out, covers b p) : out = [⟨0, S⟩] := by
+  obtain ⟨b0, hb0, h0⟩ := hcov 0 hS
+  have hoff0 : b0.off = 0 := by unfold covers at h0; omega
+  have hstop : b0.stop = S.length := by
+    have hle := (hw b0 hb0).1
+    by_cases hlt : b0.stop < S.length
+    · obtain ⟨b1, hb1, h1⟩ := hcov b0.stop hlt
+      unfold covers at h1
+      rcases pairwise_mem_or _ out hsep b0 b1 hb0 hb1 with rfl | h | h
+      · omega
+      · omega
+      · omega
+    · omega
+  have hb0eq : b0 = ⟨0, S⟩ := by
+    have hd := (hw b0 hb0).2
+    rw [hoff0, hstop] at hd
+    have : slice S 0 S.length = S := by unfold slice; simp
+    rw [this] at hd
+    cases b0; simp_all
+  have hall : ∀ b ∈ out, b = b0 := by
+    intro b hb
+    rcases pairwise_mem_or _ out hsep b0 b hb0 hb with rfl | h | h
+    · rfl
+    · have := (hw b hb).1
+      have hbo : b.off ≤ b.stop := by unfold Block.stop; omega
+      omega
+    · omega
+  -- a separated list whose members are all equal has one element
+  cases out with
+  | nil => cases hb0
+  | cons x xs =>
+    have hx := hall x List.mem_cons_self
+    cases xs with
+    | nil => rw [hx, hb0eq]
+    | cons y ys =>
+      have hy := hall y (List.mem_cons_of_mem _ List.mem_cons_self)
+      unfold Separated at hsep
+      rw [List.pairwise_cons] at hsep
+      have := hsep.1 y List.mem_cons_self
+      rw [hx, hy] at this
+      unfold Block.stop at this; omega
+
+/-- The successive `ReassembleCryptos` calls of one sniffing session, one per decrypted packet. -/
+def feedPayloads : List Block → List Bytes → Except Err (List Block)
+  | cr, [] => .ok cr
+  | cr, p :: ps =>
+    match reassemble cr p with
+    | .ok cr' => feedPayloads cr' ps
+    | .error e => .error e
+
+theorem feed_complete_aux (S : Bytes) (hS : 0 < S.length) (flight : List (Bytes × List Block))
+    (hparse : ∀ pf ∈ flight, parseFrames pf.1.length pf.1 = .ok pf.2)
+    (hw : ∀ pf ∈ flight, ∀ b ∈ pf.2, Within S b) (cr : List Block)
+    (hcr : ∀ b ∈ cr, Within S b) (hsep : Separated cr)
+    (hcov : ∀ p, p < S.length → (∃ b ∈ cr, covers b p) ∨ ∃ pf ∈ flight, ∃ b ∈ pf.2, covers b p) :
+    feedPayloads cr (flight.map Prod.fst) = .ok [⟨0, S⟩] := by
+  induction flight generalizing cr with
+  | nil =>
+    simp only [List.map_nil, feedPayloads]
+    congr 1
+    apply complete_single S hS cr hcr hsep
+    intro p hp
+    rcases hcov p hp with h | ⟨pf, hpf, _⟩
+    · exact h
+    · cases hpf
+  | cons pf rest ih =>
+    obtain ⟨p, fs⟩ := pf
+    have hp : parseFrames p.length p = .ok fs := hparse (p, fs) List.mem_cons_self
+    simp only [List.map_cons, feedPayloads, reassemble, hp]
+    have hwall : ∀ b ∈ cr ++ fs, Within S b := by
+      intro b hb
+      rcases List.mem_append.mp hb with h | h
+      · exact hcr b h
+      · exact hw (p, fs) List.mem_cons_self b h
+    obtain ⟨h1, h2, h3⟩ := mergeBlocks_spec S (cr ++ fs) hwall
+    apply ih (fun pf hpf => hparse pf (List.mem_cons_of_mem _ hpf))
+      (fun pf hpf => hw pf (List.mem_cons_of_mem _ hpf)) _ h1 h2
+    intro q hq
+    rcases hcov q hq with ⟨b, hb, hc⟩ | ⟨pf', hpf', b, hb, hc⟩
+    · left; exact (h3 q).mpr ⟨b, List.mem_append_left _ hb, hc⟩
+    · rcases List.mem_cons.mp hpf' with rfl | hpf''
+      · left; exact (h3 q).mpr ⟨b, List.mem_append_right _ hb, hc⟩
+      · right; exact ⟨pf', hpf'', b, hb, hc⟩
+
+
+/-! ## The locator over the completely reassembled stream -/
+
+theorem linRange_single (S : Bytes) (i j : Nat) (h : i < j) (hj : j ≤ S.length) :
+    linRange [⟨0, S⟩] i j = .ok (slice S i j) := by
+  unfold linRange locate
+  have hstop : (Block.mk 0 S).stop = S.length := by simp [Block.stop]
+  rw [if_pos (by rw [hstop]; omega)]
+  simp only []
+  rw [if_neg (by simp)]
+  unfold gather
+  rw [if_pos (by rw [hstop]; exact hj)]
+  simp
+
+theorem slice_one (S : Bytes) (i : Nat) (h : i < S.length) : slice S i (i + 1) = [S.getD i 0] := by
+  unfold slice
+  rw [show i + 1 - i = 1 by omega]
+  have : S.drop i = S[i] :: S.drop (i + 1) := by
+    rw [List.drop_eq_getElem_cons h]
+  simp only [List.getD, List.getElem?_eq_getElem h, Option.getD_some]
+  rw [this]
+  rfl
+
+theorem slice_self_nil (S : Bytes) (i : Nat) : slice S i i = [] := by unfold slice; simp
+
+theorem reads_linear_single (S : Bytes) (a b len : Nat) (hab : a ≤ b) (hb : b ≤ S.length)
+    (hlen : b - a ≤ len) : Reads (.linear [⟨0, S⟩] a len) (slice S a b) where
+  range := by
+    intro i j hij hj
+    rw [slice_length S a b hb] at hj
+    simp only [Loc.range]
+    split
+    · rename_i h; subst h; rw [slice_self_nil]
+    · rw [linRange_single S (i + a) (j + a) (by omega) (by omega), slice_slice S a b i j hj,
+        Nat.add_comm i, Nat.add_comm j]
+  at_ := by
+    intro i hi
+    rw [slice_length S a b hb] at hi
+    simp only [Loc.at]
+    rw [linRange_single S (i + a) (i + a + 1) (by omega) (by omega), slice_one S (i + a) (by omega)]
+    simp only []
+    rw [slice_getD S a b i (by omega) hb, Nat.add_comm]
+  len_ge := by rw [slice_length S a b hb]; simpa [Loc.len] using hlen
+
+theorem slice_full (S : Bytes) : slice S 0 S.length = S := by unfold slice; simp
+
+theorem extractSni_complete (ch : ClientHello) (hwf : ch.WF) :
+    extractSni (newLinear [⟨0, handshake ch⟩]) = specResult ch := by
+  have hnl : newLinear [⟨0, handshake ch⟩] = .linear [⟨0, handshake ch⟩] 0 (handshake ch).length := by
+    simp [newLinear, Block.stop]
+  rw [hnl]
+  apply extractSni_encode _ ch hwf
+  · have := reads_linear_single (handshake ch) 0 (handshake ch).length (handshake ch).length
+      (Nat.zero_le _) (Nat.le_refl _) (by omega)
+    rwa [slice_full] at this
+  · rfl
+  · intro a b hab hb
+    refine ⟨.linear [⟨0, handshake ch⟩] (0 + a) (b - a + 1), rfl, ?_, ?_⟩
+    · simpa using reads_linear_single (handshake ch) a b (b - a + 1) hab hb (by omega)
+    · simp [Loc.len]
+
 
 end DaeVerif.C06
